@@ -4445,3 +4445,100 @@ def flw4h(ctx):
     if n < 6:
         raise AnchorMissing("FLW-4h: %d segment-level methods of Syllable examined (expected >= 6)" % n)
     return r
+
+
+# ---------------------------------------------------------------- PUR-8: a rule is not edited while it is applied
+
+def pur8(ctx):
+    """The rule a word is rewritten with is the rule that was parsed: nothing in the library takes a `&mut Rule` or a
+    `&mut SubRule` (per-match state lives in the RefCells `alphas` / `variables`, which every attempt clears). A pass that
+    prunes or rewrites a sub-rule's environments after looking at the word makes the result depend on the word list and
+    on the scan position (the rule's own output can create the segment a pruned environment was waiting for)."""
+    r = RuleResult("PUR-8", "no function of the library takes `&mut Rule` / `&mut SubRule` (or holds them in a `&mut` collection): rules are immutable once parsed", floor=60)
+    lib = ctx.lib
+    n = 0
+    for b in lib.bodies:
+        if b.in_test_mod() or b.kind == "closure":
+            continue
+        if not b.path.startswith(("asca::subrule::SubRule::", "asca::rule::Rule::", "asca::apply_", "asca::run", "asca::trace", "asca::get_trace")):
+            continue
+        n += 1
+        bad = [t for t in (b.param_tys or []) if ("&mut asca::subrule::SubRule" in t or "&mut asca::rule::Rule" in t or "&mut [asca::subrule::SubRule" in t or "&mut alloc::vec::Vec<asca::subrule::SubRule" in t
+                                                     or "&mut [asca::rule::Rule" in t or "&mut alloc::vec::Vec<asca::rule::Rule" in t)]
+        # `for mut i in sub_rules { i.method_taking_mut_self() }`: a local SubRule borrowed mutably
+        mut_borrow = []
+        if b.blocks:
+            for bl in b.blocks:
+                if bl.get("cleanup"):
+                    continue
+                for s in bl["s"]:
+                    if s["k"] == "assign" and s["rv"].get("k") == "ref" and s["rv"].get("mut") and not s.get("exp"):
+                        ty = b.local_ty(s["rv"]["pl"]["l"]) or ""
+                        if ty in ("asca::subrule::SubRule", "asca::rule::Rule") and not s["rv"]["pl"]["p"]:
+                            mut_borrow.append(s.get("loc"))
+        ok = not bad and not mut_borrow
+        r.inst("%s: rules and sub-rules are only read" % b.path.split("::", 1)[-1], fn_loc(b), "ok" if ok else "report", nontrivial=not ok)
+        if not ok:
+            r.report("PUR-8|%s" % b.path, fn_loc(b), b.path,
+                     "%s a rule / sub-rule mutably: a rule edited after parsing (environments pruned for the current word, say) is no longer the user's rule -- an exception like `| o_` dropped because the word has no `o` yet does not block the `o` the rule itself creates"
+                     % ("takes" if bad else "borrows"))
+    if n < 60:
+        raise AnchorMissing("PUR-8: %d functions of Rule / SubRule / the drivers examined (expected >= 60)" % n)
+    return r
+
+
+# ---------------------------------------------------------------- SHR-6: `(X,M:N)` counts its mandatory repetitions
+
+def shr6(ctx):
+    """`(X,M:N)` stands for M to N repetitions. context_match_option first matches the M mandatory ones, then extends
+    lazily `while index < max`. The counter compared with `max` has already counted the mandatory repetitions: it is the
+    local the mandatory loop increments (or is initialised from the minimum) -- a fresh counter started at 0 before the
+    extension loop allows M+N repetitions."""
+    from engine_flw2 import _all_defs
+    r = RuleResult("SHR-6", "context_match_option: the counter bounded by the maximum in the lazy extension loop is the one the mandatory repetitions were counted in (or starts from the minimum)", floor=1)
+    lib = ctx.lib
+    b = ctx.fn(lib, "asca::subrule::SubRule::context_match_option")
+    cfg = b.cfg
+    M = {i for i, t in b.calls() if (callee_path(t) or "") == "asca::subrule::SubRule::match_opt_states"}
+    loops = [(h, set(body)) for h, body in cfg.loops if M & set(body)]
+    if len(loops) < 1:
+        raise AnchorMissing("SHR-6: context_match_option has no loop over match_opt_states")
+    pn = b.param_names or []
+    min_param = next((i + 1 for i, nm in enumerate(pn) if "min" in nm), None)
+    n = 0
+    for h, body in loops:
+        ext = None
+        for s_ in b.blocks[h]["s"]:
+            if s_["k"] == "assign" and s_["rv"].get("k") == "binop" and s_["rv"]["op"] in ("Lt", "Le", "Gt", "Ge"):
+                ops = (s_["rv"]["a"], s_["rv"]["b"])
+                for k, o in enumerate(ops):
+                    if o.get("k") in ("copy", "move") and any(x.startswith("unwrap_or") for x in _all_defs(b, o["pl"]["l"])):
+                        other = ops[1 - k]
+                        if other.get("k") in ("copy", "move"):
+                            ext = other["pl"]["l"]
+                            # the operand is a temporary copy of the counter
+                            from engine_pan import _single_def
+                            for _ in range(4):
+                                d0 = _single_def(b, ext)
+                                if d0 is not None and d0.get("k") == "use" and d0["op"].get("k") in ("copy", "move") and not d0["op"]["pl"]["p"]:
+                                    ext = d0["op"]["pl"]["l"]
+                                else:
+                                    break
+        if ext is None:
+            continue
+        n += 1
+        # where is the counter written?
+        writes = [(bi, s_) for bi, bl in enumerate(b.blocks) if not bl.get("cleanup") for s_ in bl["s"] if s_["k"] == "assign" and s_["lhs"]["l"] == ext and not s_["lhs"]["p"]]
+        # a write that lies on a cycle through another (the mandatory) repetition call, outside this loop
+        other_calls = [m for m in M if m not in body]
+        counted_before = any(bi not in body and any(bi in cfg.reachable_from(m, avoid={h}) and m in cfg.reachable_from(bi, avoid={h}) for m in other_calls) for bi, _ in writes)
+        from_min = any(s_["rv"].get("k") == "use" and s_["rv"]["op"].get("k") in ("copy", "move") and min_param is not None and (s_["rv"]["op"]["pl"]["l"] == min_param or "min" in (b.local_name(s_["rv"]["op"]["pl"]["l"]) or "")) for _, s_ in writes)
+        ok = counted_before or from_min
+        loc = ":".join((b.blocks[h]["t"].get("loc") or b.loc).split(":")[:2])
+        r.inst("context_match_option: the counter `%s` of the extension loop %s" % (b.local_name(ext) or "_%d" % ext, "is incremented by the mandatory repetitions" if counted_before else "starts from the minimum" if from_min else "starts afresh"), loc, "ok" if ok else "report")
+        if not ok:
+            r.report("SHR-6|context_match_option|fresh-counter", loc, b.path,
+                     "the counter the lazy extension loop compares with the maximum does not include the mandatory repetitions (it is written only inside that loop and in its initialisation): `(X,M:N)` accepts up to M+N repetitions, so it no longer equals the environment set of its M..N explicit repetitions")
+    if n < 1:
+        raise AnchorMissing("SHR-6: no extension loop bounded by unwrap_or(..) found in context_match_option")
+    return r
